@@ -465,6 +465,10 @@ func c18Child(ctx *runCtx, spec string) {
 					_, werr = pipe.GetPut(bg, wk, buf)
 				}
 				if werr == nil {
+					// pipe.Put has returned: the buffer is the caller's again, before Exec
+					for j := range buf {
+						buf[j] = 'Z'
+					}
 					werr = pipe.Exec(bg)
 				}
 				pipe.Close()
